@@ -76,6 +76,16 @@ Section QInstance.
     - destruct (Qle_bool pv now) eqn:E; [|reflexivity].
       apply Qle_bool_iff in E. apply Qle_bool_iff. rewrite Hu0.
       pose proof (update_within_period p now pv Hp E). fold d' in H. lra.
+    - destruct (Qle_bool (Qabs jitter) 1); [|reflexivity]. cbn [negb].
+      destruct (update_whole_periods p now pv Hp) as [k [Hk1 Hk]]. fold d' in Hk.
+      assert (Hne : ~ p == 0) by (intro E0; rewrite E0 in Hp; discriminate).
+      assert (Hq : (d' - pv) / p + (1 # 2) == inject_Z k + (1 # 2)).
+      { rewrite Hk. field. exact Hne. }
+      cbv zeta. rewrite Hq, Qfloor_half.
+      apply andb_true_intro; split; [simpl; apply Z.leb_le; exact Hk1|].
+      apply Qle_bool_iff.
+      assert (Hz : d' - (pv + inject_Z k * p) == 0) by (rewrite Hk; ring).
+      rewrite Hz. simpl Qabs. rewrite Hu0. ring_simplify. apply Qle_refl.
     - destruct (Qeq_bool jitter 0) eqn:Ej; [|reflexivity].
       destruct (HJ' Ej) as [k Hk]. fold d' in Hk.
       assert (Hpe : p = ct / 1000) by (unfold p, period_Q; rewrite Ej; reflexivity).
